@@ -350,7 +350,10 @@ Fixpoint run {St : Type} (step : St -> cmd -> list Ev * St * result) (st : St) (
   match h with
   | [] => ([], st)
   | c :: h' => let '(l, st', o) := step st c in
-               let (os, stf) := run step st' h' in ((l, o) :: os, stf)
+               match o with
+               | ODiverge => ([(l, o)], st')      (* the call never returns: no further driver call happens *)
+               | _ => let (os, stf) := run step st' h' in ((l, o) :: os, stf)
+               end
   end.
 Definition outs {St : Type} (r : list (list Ev * result) * St) := fst r.
 
